@@ -166,6 +166,9 @@ func soloMain(f flags, rest []string) int {
 			fmt.Fprintln(os.Stderr, err)
 			return 2
 		}
+		if rf.History != nil {
+			return soloHistory(rf)
+		}
 		p = properties[rf.Property]
 		ph = rf.Phase
 		t = ReplayTape(rf.Tape)
@@ -211,6 +214,41 @@ func soloMain(f flags, rest []string) int {
 }
 
 var liftBudgets bool
+
+// soloHistory re-runs, in this fresh process, every case the worker ran before the recorded one (same order), then the
+// recorded case, and reports the verdict of that last case: for violations that only show once the process has a history.
+func soloHistory(rf *ReplayFile) int {
+	p := properties[rf.Property]
+	h := rf.History
+	phases := p.Phases(h.Tier)
+	st := NewStats(1)
+	var last *Violation
+	var lastCase Case
+	var lastRec []uint64
+	for pi := 0; pi <= rf.PhaseIdx && pi < len(phases); pi++ {
+		ph := &phases[pi]
+		for i := h.Worker; i < ph.Count; i += h.Workers {
+			if pi == rf.PhaseIdx && i > rf.CaseIdx {
+				break
+			}
+			t := TapeFor(rf.Seed, p.ID(), pi, ph, i)
+			v, c, rec := runCase(p, ph, t, st)
+			if pi == rf.PhaseIdx && i == rf.CaseIdx {
+				last, lastCase, lastRec = v, c, rec
+			}
+		}
+	}
+	out := SoloResult{Violation: last, Tape: lastRec}
+	if lastCase != nil {
+		out.Case = lastCase.Describe()
+	}
+	b, _ := json.Marshal(out)
+	fmt.Println(string(b))
+	if last != nil && isKnown(p.ID(), last.Known) == nil {
+		return 3
+	}
+	return 0
+}
 
 func readReplay(path string) (*ReplayFile, error) {
 	b, err := os.ReadFile(path)
@@ -315,7 +353,11 @@ func reproduces(rf *ReplayFile, path string) (bool, string) {
 		if rf.Crash != "" {
 			args = append(args, "--nobudget")
 		}
-		co := runChild(90*time.Second, args...)
+		timeout := 90 * time.Second
+		if rf.History != nil {
+			timeout = 10 * time.Minute
+		}
+		co := runChild(timeout, args...)
 		switch {
 		case rf.Crash != "":
 			if co.died || co.hung {
@@ -579,6 +621,19 @@ func superviseCheck(p Property, tier string, seed uint64) int {
 		path := filepath.Join(outHome(), "replays", fmt.Sprintf("%s-%d-%d-%d.json", rf.Property, seed, rf.PhaseIdx, rf.CaseIdx))
 		os.WriteFile(path, []byte(mustJSON(rf)), 0o644)
 		ok, how := reproduces(rf, path)
+		if !ok && rf.Crash == "" {
+			// Not alone in a fresh process. With the history of the worker that found it? (state accumulated in the process)
+			hrf := *rf
+			hrf.History = &HistorySpec{Tier: tier, Worker: rf.CaseIdx % W, Workers: W}
+			hrf.Shrunk = false
+			hrf.Detail = "(only after the cases the same worker process ran before it: state accumulates in the process) " + rf.Detail
+			os.WriteFile(path, []byte(mustJSON(&hrf)), 0o644)
+			if ok2, how2 := reproduces(&hrf, path); ok2 {
+				rf, ok, how = &hrf, true, how2+" - with the worker's history replayed in a fresh process"
+			} else {
+				os.WriteFile(path, []byte(mustJSON(rf)), 0o644)
+			}
+		}
 		if !ok {
 			fmt.Printf("HARNESS-ERROR a violation of %s (clause %s) did not reproduce in a fresh process: %s (replay kept at %s)\n", rf.Property, rf.Clause, how, path)
 			if exit == 0 {
